@@ -1,1 +1,1 @@
-def wedgeScaleIsDivBackend : Bool := false
+def wedgeScaleIsDivBackend : Bool := true
